@@ -154,7 +154,7 @@ def make_config(prop, seed, tier):
         "faults": r.random() < 0.75,  # restarts / evictions / clock / chunking enabled
         "steps": r.randint(8, 25) if tier == "quick" else r.randint(10, 60),
         # separate configuration (DESIGN.md 2.3(4)): injected ENOSPC/EIO inside write requests
-        "io_faults": prop in ("C01", "C02", "C06", "C08") and r.random() < 0.3,
+        "io_faults": prop in ("C01", "C02", "C08") and r.random() < 0.3,
         # file mtimes follow the simulated clock, which only moves on clock ops: every
         # write between two of them carries the same timestamp
         "sim_mtime": r.random() < 0.5,
@@ -205,7 +205,6 @@ class HistRun:
         self.transitions = set()
         self.resyncs = 0
         self.io_faults = io_faults
-        self.rio_armed = 0
         self.git_heads = {}  # coll path -> list of commit ids (observer)
         self.last_fault = None
         self.world = None
@@ -281,13 +280,40 @@ class HistRun:
         """Observe every known collection.  Returns {path: Obs}."""
         w = self.world
         new = {}
+        # The audit itself only reads.  Ask for the sync-token alone before and after it, so that a
+        # read that writes (a getter that "repairs" what it finds) cannot hide inside the audit.
+        bracket = self.prop in ("C01", "C08") and not initial
+        pre = {path: self.token_only(path) for path in sorted(self.model.colls)} if bracket else {}
         for path in sorted(self.model.colls):
             o = observe_collection(w, path, get_bodies=True)
             new[path] = o
+        if bracket:
+            for path in sorted(self.model.colls):
+                a, b = pre.get(path), self.token_only(path)
+                if a is not None and b is not None and a != b:
+                    c = self.model.colls[path]
+                    self.v("C08", "C08.tag-changed-by-audit-reads", "%s: sync-token %s -> %s across PROPFIND/GET requests only" % (path, a, b), backend=c.backend)
+                    self.v("C01", "C01.read-changed-state", "PROPFIND/GET of %s and its members changed its sync-token %s -> %s" % (path, a, b), op="audit")
         prev = self.obs
         self.obs = new
         self.check_model(prev, new, initial)
         return new
+
+    _TOKEN_BODY = dav.propfind_body([dav.P_SYNCTOKEN])
+
+    def token_only(self, path):
+        r = self.world.req("PROPFIND", path, [("Depth", "0"), dav.XML_CT], self._TOKEN_BODY)
+        if r is None or r.status != 207:
+            return None
+        try:
+            resps, _ = dav.parse_multistatus(r.body)
+        except (ET.ParseError, ValueError):
+            return None
+        for ms in resps:
+            t = ms.text(dav.P_SYNCTOKEN)
+            if t is not None:
+                return t
+        return None
 
     def check_model(self, prev, new, initial):
         """C01 core: observation == acknowledgement-following model; for
@@ -523,10 +549,6 @@ class HistRun:
                 if self.cfg.get("io_faults") and op["op"] in ("put", "post", "delete", "proppatch", "reupload") and self.io_armed < 2 and self.frng.random() < 0.25:
                     op["fault"] = {"after": self.frng.randint(1, 45), "errno": self.frng.choice(["ENOSPC", "ENOSPC", "EIO"])}
                     self.io_armed += 1
-                elif self.cfg.get("io_faults") and op["op"] in ("put", "post", "delete") and self.rio_armed < 3 and self.frng.random() < 0.25:
-                    # the read side of a write (UID scan, index / tree lookups) fails once
-                    op["read_fault"] = {"after": self.frng.randint(1, 80), "errno": self.frng.choice(["EIO", "EIO", "EMFILE"])}
-                    self.rio_armed += 1
                 return op
         return {"op": "get", "path": "/user/", "salt": 0}
 
@@ -802,7 +824,12 @@ class HistRun:
     def gen_prop_value(self, tag, backend):
         r = self.rng
         if tag in (dav.P_CAL_COLOR, dav.P_AB_COLOR):
-            return gen.color(r)
+            c = gen.color(r)
+            if self.prop != "C15" and r.random() < 0.25:
+                # the bare RRGGBB form some clients send: outside C15's value grammar (never pinned
+                # for read-back), but reads of it must still be reads
+                return c[1:]
+            return c
         if tag == dav.P_CAL_ORDER:
             return str(r.randint(0, 9999))
         return gen.prop_text(r, allow_semicolon=(backend != "gitcfg"))
@@ -1183,7 +1210,7 @@ class HistRun:
                 pass
         ctx["propstat"] = stat
         for t, val in props:
-            if stat.get(t) == 200:
+            if stat.get(t) == 200 and not (t in (dav.P_CAL_COLOR, dav.P_AB_COLOR) and not (val or "").startswith("#")):
                 c.props[t] = val
                 c.removed.pop(t, None)
         rt_status = stat.get(dav.P_RESOURCETYPE)
@@ -1214,6 +1241,11 @@ class HistRun:
                 for kind, t, val in instrs:
                     if stat.get(t) == 200:
                         if kind == "set":
+                            if t in (dav.P_CAL_COLOR, dav.P_AB_COLOR) and not (val or "").startswith("#"):
+                                c.props.pop(t, None)
+                                c.removed.pop(t, None)
+                                self.count("bare_colour_set")
+                                continue
                             c.props[t] = val
                             c.removed.pop(t, None)
                         else:
